@@ -20,9 +20,12 @@ Good(o) == /\ o.result = "ok"
            /\ o.neighbour_matches = 0        \* ... and no line with different content
 \* both ways by which scrut writes the text for a line: generated from output, and canonical rendering of an
 \* existing equal expectation ("skip": the line is not valid UTF-8, so it cannot be an equal expectation)
-C11ok == Good(O) /\ (O.render.result = "skip" \/ Good(O.render))
+\* ("collision": the harness did not judge a line that was written verbatim and itself ends like the marker, see Collides
+\* -- only accepted where the line ends in the class S and the verbatim text is printable for the mode)
+C11ok == IF O.result = "collision" THEN R.ev = "Load" /\ s # <<>> /\ s[Len(s)] = "S" /\ O.printable_ok
+         ELSE Good(O) /\ (O.render.result = "skip" \/ Good(O.render))
 \* variant 0 uses the spec's representative bytes: the text should be the intended encoding (else: drift)
-IntendedText == Encode(mode, s) \o (IF Marked(mode, s) THEN <<32, 40, 101, 115, 99, 97, 112, 101, 100, 41>> ELSE <<>>)
+IntendedText == Written(mode, s)
 Verdicts == (i > 0) =>
     /\ (C11ok \/ PrintT(<<"VERDICT", "C11", R.id>>))
     /\ (R.ev = "Load" /\ R.variant = 0 /\ O.result = "ok" /\ O.text # IntendedText => PrintT(<<"DRIFT", R.id>>))
